@@ -104,6 +104,23 @@ macro_rules! cfg_impl {
                     let dm = hm(&sk.decrypt(&pm).to_uint()); let want = bhex(&((k * m1) % &n));
                     cx.pred(&format!("{tag}:mul"), dm == want, format!("pai mul {pre} {c1h} {}", bhex(k)), dm.clone(), want, "paillier:dec(mul)!=k*m1", "scalar multiple does not decrypt to (k·m1) mod N");
                 }
+                // special and UNREDUCED operands (RawCiphertext::from_uint / from_be_bytes / serde do not validate):
+                // the neutral element 1, 0, N^2-1, N^2, c1 + N^2, all-ones — in every pairing with c1 and with each other
+                if !c7 && !light {
+                    let width = BigUint::from(1u8) << (4 * PBITS);
+                    let c1n = big(&c1h);
+                    let specials: Vec<BigUint> = vec![BigUint::from(0u8), BigUint::from(1u8), &nn - 1u8, nn.clone(), (&c1n + &nn) % &width, &width - 1u8, c1n.clone()];
+                    for (i, x) in specials.iter().enumerate() { for (j, y) in specials.iter().enumerate() {
+                        if (i + j) % 2 == 1 && i > 1 && j > 1 { continue; }
+                        let r = pk.add(&RawCiphertext::from(uc(x)), &RawCiphertext::from(uc(y)));
+                        cx.cmp(&format!("{tag}:add-special"), format!("pai add {pre} {} {}", bhex(x), bhex(y)), hc(&r.to_uint()), Some(format!("pai specadd {pre} {} {}", bhex(x), bhex(y))), "paillier:add!=c1*c2", "add result differs from c1·c2 mod N² (special / unreduced operands)", true);
+                    } }
+                    for x in &specials { for kk in [BigUint::from(0u8), BigUint::from(1u8), BigUint::from(2u8)] {
+                        if kk >= n { continue; }
+                        let r = pk.mul(&RawCiphertext::from(uc(x)), &msg(&kk));
+                        cx.cmp(&format!("{tag}:mul-special"), format!("pai mul {pre} {} {}", bhex(x), bhex(&kk)), hc(&r.to_uint()), Some(format!("pai specmul {pre} {} {}", bhex(x), bhex(&kk))), "paillier:mul!=c^k", "mul result differs from c^k mod N² (special / unreduced operands)", true);
+                    } }
+                }
                 let _ = nn;
             }
 
